@@ -23,6 +23,7 @@ def warm_layouts():
     C.run_tlc("Discovery", "Discovery.cfg", workers=8, timeout=3600)
     C.run_tlc("Imports", "Imports.cfg", workers=12, timeout=3600)
     C.run_tlc("Positions", "Positions.cfg", workers=4, timeout=3600)
+    C.run_tlc("Completion", "Completion.cfg", workers=4, timeout=3600)
     for g in ("use", "bind", "fix"):
         C.run_tlc("Undeclared", "Undeclared_%s.cfg" % g, workers=4, timeout=3600)
     for g in ("deco", "params", "body", "doc"):
@@ -47,6 +48,7 @@ CHECKS = {
     "C15": extractchecks.check_c15,
     "C16": depgraphs.check_c16,
     "C17": lspchecks.check_c17,
+    "C18": lspchecks.check_c18,
     "C19": lspchecks.check_c19,
     "C20": clichecks.check_c20,
 }
